@@ -78,9 +78,22 @@ def optlit(x, f):
 # source gate
 # --------------------------------------------------------------------------
 def strip_coq_comments(s):
+    """removes (nested) comments; string literals outside comments are blanked"""
     out, depth, i, n = [], 0, 0, len(s)
     while i < n:
-        if s.startswith("(*", i):
+        if depth == 0 and s[i] == '"':
+            j = i + 1
+            while j < n:
+                if s[j] == '"':
+                    if j + 1 < n and s[j + 1] == '"':
+                        j += 2
+                        continue
+                    break
+                j += 1
+            out.append('""')
+            out.append("\n" * s.count("\n", i, j))
+            i = j + 1
+        elif s.startswith("(*", i):
             depth += 1
             i += 2
         elif s.startswith("*)", i) and depth > 0:
